@@ -112,6 +112,15 @@ class TracingLock:
             self.depth += 1
             return True
         self.sched.step("try")
+        if not blocking:
+            # the operation asked for a NON-blocking acquire: the attempt happens right now
+            if not self.inner.acquire(False):
+                self.sched.rec.log(self.sched.name(), "deviation", got="nonblocking_acquire_failed", exp="acq")
+                return False
+            self.sched.step("acq")
+            self.owner = me
+            self.depth += 1
+            return True
         if self.sched.schedule is not None:
             # cooperative: the acquisition itself happens at the specification's Acquire step
             self.sched.step("acq")
